@@ -89,6 +89,30 @@ func init() {
 
 	reg("net.SplitHostPort", func(e *Engine, st *State, c *callCtx) bool {
 		s := c.str(e, st, 0)
+		// structural case: host ++ ":" ++ port where neither side can contain ':', '[' or ']'
+		if !s.K && s.parts != nil {
+			colon := -1
+			ok := true
+			for i, p := range s.parts {
+				if p.K {
+					switch {
+					case p.Str == ":" && colon < 0:
+						colon = i
+					case strings.ContainsAny(p.Str, ":[]"):
+						ok = false
+					}
+					continue
+				}
+				if e.ask(Or(StrContains(p, KStr(":")), StrContains(p, KStr("[")), StrContains(p, KStr("]")))) != "unsat" {
+					ok = false
+				}
+			}
+			if ok && colon >= 0 {
+				e.res.Intrinsics["<exact> net.SplitHostPort (structural host:port)"]++
+				c.ret(st, TupleVal{e.name(Concat(s.parts[:colon]...)), e.name(Concat(s.parts[colon+1:]...)), IfaceVal{}})
+				return true
+			}
+		}
 		r := e.ufCall(st, "splithostport", s)
 		ok, host, port := r[0], r[1], r[2]
 		if !s.K {
